@@ -8,7 +8,7 @@ use vf_engine::{CaseCtx, Check};
 
 use crate::{
     c07::instance_sets,
-    room::{history, ref_resolve_traced, ruma_resolve, History, Room, SMap},
+    room::{history, ref_resolve_traced, ref_resolve_variant, ruma_resolve, History, Room, SMap},
 };
 
 #[derive(Serialize, Deserialize, Debug, Clone)]
@@ -51,7 +51,11 @@ fn oracle_with(threads: usize, reps_scale: usize, c: &DetCase, cx: &mut CaseCtx)
         cx.class_if(trace.conflicted >= 2, "ge_2_conflicted");
         nt |= trace.conflicted >= 2 && trace.tie_pl_ts;
         let asserted_vs_reference = !trace.closure_differs_from_conflicted_path_closure;
-        if asserted_vs_reference && base != reference {
+        if asserted_vs_reference && base != reference && trace.no_pl_ancestor_in_mainline_phase && base == ref_resolve_variant(&r, &sets, true).0 {
+            // C07's open known finding (mainline position of events without power-levels
+            // ancestor); determinism is still checked against `base` below
+            cx.class("differs_from_reference_by_c07_known_finding");
+        } else if asserted_vs_reference && base != reference {
             return Err(format!("resolve differs from the fixed-point reference for the states after {nodes:?} (see C07)"));
         }
         // every permutation of the state sets, auth chains permuted consistently and independently
